@@ -160,6 +160,9 @@ impl Check for VotesCheck {
     fn components(&self) -> serde_json::Value {
         serde_json::json!({"real": ["stellar_governance::votes::*", "stellar_tokens::fungible::votes::FungibleVotes", "fungible Base"], "stub": ["Wallet"]})
     }
+    fn probes(&self, _prop: &str) -> std::vec::Vec<&'static str> {
+        vec!["probe.same_ledger_update"]
+    }
     fn dup_ok(&self, _s: &Step) -> bool {
         true
     }
